@@ -21,7 +21,7 @@ CLAIMED = {
  "C06": ("subjects", "differential testing between builds: identical generated sources compiled with and without state_machine_codegen; full observation records (items, spans, error codes, logs, partial-mode runs) compared byte for byte",
          "Exploration. Equivalence clause decided by build-against-build comparison (items, spans, error codes, skip/callback logs, partial-mode runs) over the covering + random inputs of every subject incl. the callbacks family. Stack clause: child process per (stress definition, input shape, size 16 .. 4*10^6, thorough 16*10^6) on a fixed 256 KiB thread stack in both state-machine builds; death at a larger size after the 16-unit baseline succeeded is the violation (verified to discriminate: the tail-call build dies at 10^5 consecutive skips).", "Trusted: deterministic input generation (same seed => same inputs in both builds).", "7/C06"),
  "C07": ("subjects", "property-based testing on compiled lexers: every split point of every input; partial items must be a leading run of the one-shot items of the input and of generated alternative continuations; position and chunked-history relations",
-         "Exploration in 4 configurations; soundness (a: leading run of the one-shot items of the input and of 6 generated continuations), position (b) and chunked history (d) are differential against the same build; completeness (c) uses the reference: every committed item must be determined by the buffer and at None the pending attempt must depend on more input (RefLexer::wait over all 257 next symbols), with the documented one-char slack for look-around definitions.", "Trusted: the subject itself for (a),(b),(d); regex-automata per-pattern DFAs for the determinedness computation (c).", "7/C07"),
+         "Exploration in 4 configurations; soundness (a: leading run of the one-shot items of the input and of 6 generated continuations), position (b) and chunked history (d) are differential against the same build; completeness (c) uses the reference: every committed item must be determined by the buffer and at None the pending attempt must depend on more input (RefLexer::wait over all 257 next symbols), with the documented one-char slack for look-around definitions. Callbacks x partial lexing: on the callbacks family (decisions are functions of the matched text) committed items with payloads / error codes and the callback invocations must be a leading run of the one-shot ones, the rest re-lexes, chunked history for bump-free definitions.", "Trusted: the subject itself for (a),(b),(d); regex-automata per-pattern DFAs for the determinedness computation (c).", "7/C07"),
  "C08": ("vgraph", "property-based testing with a product-automaton oracle: breadth-first walk of the product of per-pattern reference matchers computing top-priority tie sets; accept/reject and reported sets compared",
          "Exploration over thousands of overlap-dense definitions; both verdicts frequent (about 30% rejected).", REF, "7/C08"),
  "C09": ("vgraph", "property-based testing: captured leaf priority vs the statement's rule on the harness' own parse, cross-checked by a shortest-path (0-1 BFS) computation of the minimum char count on the pattern DFA; literal/regex pair consequence",
